@@ -25,7 +25,7 @@ __TAPKEE_IMPLEMENTATION(KernelPrincipalComponentAnalysis)
         EigendecompositionResult embedding =
             eigendecomposition_via(LargestEigenvalues, centered_kernel_matrix, parameters[target_dimension]);
         for (IndexType i = 0; i < static_cast<IndexType>(parameters[target_dimension]); i++)
-            embedding.first.col(i).array() *= sqrt(embedding.second(i));
+            embedding.first.col(i).array() *= sqrt(std::max<ScalarType>(embedding.second(i), 0.0));
         return TapkeeOutput(embedding.first, unimplementedProjectingFunction());
     }
 __TAPKEE_END_IMPLEMENTATION()
